@@ -59,6 +59,7 @@ type aliasPlan struct {
 	label string
 	rep   map[int]int // param index -> representative param index (itself if none)
 	elem  map[int]int // slice-of-pointers param index -> pointer param index that is one of its elements
+	elemIdx map[int]int64 // for fixed-length slices: the position of that element
 }
 
 func (e *Engine) aliasPlans(fn *ssa.Function, c *Contract) []aliasPlan {
@@ -484,15 +485,40 @@ func (e *Engine) verifyFunction(fn *ssa.Function, c *Contract) (err error) {
 	}()
 	for _, plan := range plans {
 		for _, sc := range cases {
-			var labs []string
-			if plan.label != "" {
-				labs = append(labs, "alias="+plan.label)
+			// "p is an element of vec" with vec of fixed length n: one variant per position (none if n = 0)
+			idxChoices := []map[int]int64{nil}
+			for vi := range plan.elem {
+				if n, fixed := sc.lens[fn.Params[vi].Name()]; fixed {
+					var next []map[int]int64
+					for _, base := range idxChoices {
+						for j := int64(0); j < n; j++ {
+							m := map[int]int64{vi: j}
+							for k, v := range base {
+								m[k] = v
+							}
+							next = append(next, m)
+						}
+					}
+					idxChoices = next
+				}
 			}
-			if sc.label != "" {
-				labs = append(labs, sc.label)
+			for _, choice := range idxChoices {
+				var labs []string
+				if plan.label != "" {
+					l := "alias=" + plan.label
+					for vi, j := range choice {
+						l += fmt.Sprintf("@%s[%d]", fn.Params[vi].Name(), j)
+					}
+					labs = append(labs, l)
+				}
+				if sc.label != "" {
+					labs = append(labs, sc.label)
+				}
+				e.variant = strings.Join(labs, ";")
+				p2 := plan
+				p2.elemIdx = choice
+				e.verifyVariant(fn, c, p2, sc)
 			}
-			e.variant = strings.Join(labs, ";")
-			e.verifyVariant(fn, c, plan, sc)
 		}
 	}
 	e.variant = ""
@@ -594,6 +620,11 @@ func (e *Engine) verifyVariant(fn *ssa.Function, c *Contract, plan aliasPlan, sc
 	}
 	for vi, pi := range plan.elem {
 		sv := args[vi].(*SliceVal)
+		if j, fixed := plan.elemIdx[vi]; fixed && !sv.reg.dyn {
+			// fixed-length slice: element j *is* the pointer parameter
+			st.mem.cells[pathKey(sv.reg.id, extend(sv.path, int(j)))] = args[pi]
+			continue
+		}
 		sv.reg.aliasPtr = args[pi].(*PtrVal)
 		k := mkIntVarR("aliasidx("+fn.Params[vi].Name()+")", big0, big.NewInt(1<<40))
 		sv.reg.aliasIdx = k
